@@ -89,6 +89,7 @@ class Spec:
         self.sym_caps = True
         self.sym_counters = False       # counters independent symbolic values constrained by Inv (else built as sums)
         self.sym_history = False
+        self.history_len = 2
         self.reachable_modes = True     # user modes +O / +r only as default_user_modes gives them (they are not reachable otherwise)
         self.plain_chans = []           # channels whose attributes are concrete defaults: only existence, key and the actor's membership stay symbolic
         self.operators = []             # [(name, hash, mask|None)]
@@ -249,8 +250,10 @@ class World:
             M.assume(z3.ULT(self.c_max, z3.BitVecVal(1 << 40, 64)))
         hist = HMap(False)
         if sp.sym_history:
+            # the nick 'oldnick' was used (history_len times) by the replay helper before: entries as its renames leave them
             for n in ['oldnick']:
-                hist.slots.append([n, self.B('hist_' + n), Cell(VecV([S('NickHistoryEntry', username=mkstring('olduser'), hostname=mkstring('h3'), realname=mkstring('Old'), signon=100)]))])
+                hist.slots.append([n, self.B('hist_' + n), Cell(VecV([S('NickHistoryEntry', username=mkstring('zz'), hostname=mkstring('127.0.0.1'), realname=mkstring('Real zz'), signon=self.T(f'hsignon_old{i}'))
+                                                                         for i in range(sp.history_len)]))])
         self.server_quit = OneShot('server_quit')
         vs = S('VolatileState', users=users, channels=channels,
                wallops_users=hset([(n, _and(self.reg[n], self.umode[(n, 'wallops')])) for n in sp.nicks]),
@@ -320,7 +323,7 @@ class World:
                       sender=sender, receiver=mk_receiver(ch),
                       ping_sender=(NONE() if registered else some(mk_sender(ping_ch))), ping_receiver=mk_receiver(ping_ch),
                       timeout_sender=BoxV(Cell(mk_sender(tmo_ch)), 'Arc'), timeout_receiver=mk_receiver(tmo_ch),
-                      pong_notifier=NONE(), quit_receiver=FuseFuture(OneshotReceiver(kill)), quit_sender=quit_sender,
+                      pong_notifier=(VecV() if 'VecDeque' in self.prog.struct_field_types.get(('ConnState', 'pong_notifier'), '') else NONE()), quit_receiver=FuseFuture(OneshotReceiver(kill)), quit_sender=quit_sender,
                       dns_lookup_receiver=FuseFuture(OneshotReceiver(dns)),
                       user_state=us, caps_negotation=caps_negotation, caps=S('CapState', multi_prefix=mp),
                       quit=quit_flag, conns_count=self.conns_count)
